@@ -572,3 +572,41 @@ Lemma list_leading_space_lost :
     (build_list_string half_year_spec 0 1717243200 st [32; 97])
   = Ok ([97], list_info st [50; 48; 50; 52; 48; 54; 48; 49; 49; 49; 53; 56; 48; 48]).
 Proof. vm_compute. reflexivity. Qed.
+
+(* ---------------- the LIST worker loop + the client's line-by-line parsing ---------------- *)
+Definition outside_window (now mtime : Z) : Prop :=
+  now - half_year_spec + DAY < mtime <= now \/ mtime <= now - half_year_spec \/ now < mtime.
+
+Definition list_entry_ok (off now : Z) (e : dentry) : Prop :=
+  exists st, de_stat e = Some st /\ plain_entry st (de_name e) /\
+             1000 <= yr (civil_of_epoch (st_mtime st + off)) <= 9999 /\
+             outside_window now (st_mtime st).
+
+Definition expected_modify (off now : Z) (st : stats) : text :=
+  let tm := civil_of_epoch (st_mtime st + off) in
+  if (st_mtime st <=? now - half_year_spec) || (now <? st_mtime st)
+  then fmt_14 (day_floor tm) else format_date_time tm.
+
+Theorem list_entries_exact half two off now now' dir :
+  consts_ok half two = true ->
+  now <= now' <= now + HOUR -> yr (client_now off now') <= 9999 ->
+  Forall (list_entry_ok off now) dir ->
+  map (parse_list_line_unix half two (client_now off now')) (list_lines half off now dir)
+  = map (fun e => match de_stat e with
+                  | Some st => Ok (de_name e, list_info st (expected_modify off now st))
+                  | None => Err 0
+                  end) dir.
+Proof.
+  intros C Hn HY' F.
+  assert (C' := C). unfold consts_ok in C'. apply andb_true_iff in C' as [C' _].
+  apply andb_true_iff in C' as [_ C2]. apply Z.leb_le in C2.
+  induction F as [|e rest (st & Es & P & HY & W) _ IH]; [reflexivity|].
+  unfold list_lines in *. cbn [flat_map map]. rewrite Es. cbn [app map]. rewrite IH. f_equal.
+  unfold expected_modify.
+  destruct ((st_mtime st <=? now - half_year_spec) || (now <? st_mtime st)) eqn:B.
+  - apply list_line_old_or_future; try assumption.
+    apply orb_true_iff in B as [B|B]; [left; apply Z.leb_le in B; exact B|right; apply Z.ltb_lt in B; exact B].
+  - apply orb_false_iff in B as [B1 B2]. apply Z.leb_gt in B1. apply Z.ltb_ge in B2.
+    apply list_line_recent; try assumption; try lia.
+    destruct W as [W|[W|W]]; [exact W|lia|lia].
+Qed.
